@@ -21,14 +21,15 @@ ID = "C12"
 LEVEL = "model_checking"
 RULE = (
     "configurations: target-host lists {[local], [local, r1], [r1, r2], [r1:9200, r1:9201], [local:9200, local:9201], [local, r1:9200, "
-    "r1:9201], [local, r1, local], [r1, r2, r1]} x {no fault, launcher fails on each host, a remote daemon departs during start-up} x {a non-target daemon / a daemon without "
+    "r1:9201], [local, r1, local], [r1, r2, r1]} x {no fault, launcher fails on each host, a member daemon is shut down during start-up (any time before its nodes "
+    "have started: listeners get the convention update, its actors die, their parents get ChildActorExited, later creations abort)} x {a non-target daemon / a daemon without "
     "ip capability also joins} x preserve-install {off, on} plus externally provisioned clusters; per configuration ALL reachable "
     "states: transitions = deliver the head of any sender/receiver channel | fire any pending timer | a remote daemon joins | the departure. "
     "non-trivial = configuration with more than one node actor or a fault; distinct = canonical state"
 )
 ASSUMPTIONS = [
-    "transport = mc/actorsim.py in untimed mode (timers may fire at any moment); remote daemons announce themselves through "
-    "ActorSystemConventionUpdate in any order after the Dispatcher registered",
+    "transport = mc/actorsim.py in untimed mode (timers may fire at any moment); remote daemons join the convention in any order, before "
+    "or after the Dispatcher registers (members are announced on registration); convention semantics as observed on the real Thespian",
     "race control (environment): StartEngine first; StopEngine on EngineStarted; ActorExitRequest to the mechanic on BenchmarkFailure",
     "canonical state: per actor (class, alive, status, children/response counts, pending/remotes sizes, mechanic present), channel contents "
     "by message class in order, pending timers, stub call log without periodic flushes, environment flags",
@@ -178,7 +179,8 @@ def canon(sim, env):
         if c[0] != "flush-periodic":
             per_group.setdefault(str(c[1])[:28], []).append((c[0],) + tuple(map(str, c[2:])))
     calls = tuple(sorted((g, tuple(v)) for g, v in per_group.items()))
-    return h((acts, chans, timers, calls, tuple(sorted(env["joined"])), env["departed"], tuple(env["rc"]), sorted(sim.convention_listeners)))
+    return h((acts, chans, timers, calls, tuple(sorted(env["joined"])), env["departed"], tuple(env["rc"]), sorted(sim.convention_listeners),
+              sorted(sim.systems), sim.ever_registered))
 
 
 def run_config(cfgspec, ch, res):
@@ -193,6 +195,7 @@ def run_config(cfgspec, ch, res):
     CLOCK.start(now=0.0, sleep_mode="error")
     sim = actorsim.ActorSim(ch, horizon=10_000.0, max_steps=400)
     sim.untimed = True
+    sim.strict_placement = True
     sim.ignore_timers = _S.get("ignore_timers", False)
     dep = {"waiting": None}
 
@@ -211,36 +214,30 @@ def run_config(cfgspec, ch, res):
         try:
             maddr = sim.create_actor(mech.MechanicActor, parent=sim.external)
             for d in daemons:
-
+                # a remote daemon (actor system) becomes a member of the convention: before or after the Dispatcher starts listening
                 def enabled(sm, d=d):
-                    return d not in env["joined"] and bool(sm.convention_listeners) and not env["departed"]
+                    return d not in env["joined"] and not env["departed"]
 
                 def fire(sm, d=d):
                     env["joined"].add(d)
                     caps = {"ip": d} if d not in ("other", "noip") else ({"ip": OTHER} if d == "other" else {})
-                    for lk in list(sm.convention_listeners):
-                        sm.seq += 1
-                        sm.channels.setdefault(("system", lk), __import__("collections").deque()).append(
-                            (sm.seq, ta.ActorSystemConventionUpdate(ta.ActorAddress(f"admin-{d}"), caps, True))
-                        )
+                    sm.system_joins(d, caps)
 
                 sim.faults.append(actorsim.Fault(f"join-{d}", enabled, fire, mandatory=True))
             if fault and fault[0] == "daemon-departs":
+                # A member daemon that the Dispatcher has been or is being told about is shut down before its nodes have been started
+                # ("during start-up").  Semantics = ActorSim.system_leaves, as observed on the real multiprocTCPBase (DESIGN.md 10.8).
+                lip = fault[1]
 
-                def enabled_dep(sm):
-                    # "during start-up": while at least one target daemon has not announced itself yet (all convention updates reach the
-                    # Dispatcher through one FIFO channel, so it is still waiting when it learns about the departure)
-                    return not env["departed"] and bool(sm.convention_listeners) and any(d not in env["joined"] for d in remote_ips)
+                def enabled_leave(sm):
+                    started_there = any(c[0] in ("start", "start-failed") and c[1][0] == lip for c in _S["calls"].log)
+                    return lip in sm.systems and sm.ever_registered and not env["departed"] and not started_there and "EngineStarted" not in env["rc"]
 
-                def fire_dep(sm):
+                def fire_leave(sm):
                     env["departed"] = True
-                    for lk in list(sm.convention_listeners):
-                        sm.seq += 1
-                        sm.channels.setdefault(("system", lk), __import__("collections").deque()).append(
-                            (sm.seq, ta.ActorSystemConventionUpdate(ta.ActorAddress(f"admin-{fault[1]}"), {"ip": fault[1]}, False))
-                        )
+                    sm.system_leaves(lip)
 
-                sim.faults.append(actorsim.Fault("daemon-departs", enabled_dep, fire_dep))
+                sim.faults.append(actorsim.Fault("daemon-departs", enabled_leave, fire_leave))
             ctx = {"race-id": "verif-race", "race-timestamp": "20260101T000000Z", "track": "t", "challenge": "c", "car": "defaults"}
             sim.tell(maddr, mech.StartEngine(cfg, ctx, False, True, external, False))
             seen = [0]
@@ -292,8 +289,9 @@ def run_config(cfgspec, ch, res):
     calls = _S["calls"].log
     rc = env["rc"]
     # a departure only counts as a start-up fault if the Dispatcher was still waiting for daemons when it learnt about it
-    faulty = bool(fault) and (fault[0] == "launch-fails" or (env["departed"] and dep["waiting"] is True))
-    late_departure = bool(fault) and fault[0] == "daemon-departs" and env["departed"] and not dep["waiting"]
+    faulty = bool(fault) and (fault[0] == "launch-fails" or env["departed"])
+    gone_ip = fault[1] if fault and fault[0] == "daemon-departs" and env["departed"] else None
+    late_departure = False
     if v is None and status == "step-limit":
         v = ("no-quiescence", f"step limit reached: {rc}")
     if v is None:
@@ -319,7 +317,7 @@ def run_config(cfgspec, ch, res):
             # every started node group: stop -> final flush -> store close -> cleanup (with the preserve flag), exactly once
             for g, ids in groups.items():
                 started = [c for c in calls if c[0] == "start" and c[1] == g]
-                if not started:
+                if not started or g[0] == gone_ip:
                     continue
                 seq = [c[0] for c in calls if len(c) > 1 and c[1] == g and c[0] in ("stop", "flush-final", "store-close")]
                 if seq != ["stop", "flush-final", "store-close"]:
